@@ -113,6 +113,39 @@ theorem over_errors (f : List Rat → Rat) (s : Src) (ranges : List (Int × Int)
 example : over (fun l => l.sum) (.ts [(0, 1), (3, 2), (5, 4)]) [(0, 4), (4, 6), (6, 9)] (some true)
     = .ok [(1, 3), (5, 4)] := by decide +kernel
 
+/-! ### `reduce` is an arbitrary callable (deepening round D) -/
+
+/-- `reduce` is an arbitrary callable: the answer of `downsampled_over` is the recorded windows with `reduce` applied
+    to each — whatever `reduce` is, it sees exactly `overWindows`. -/
+theorem over_factors (f : List Rat → Rat) (s : Src) (ranges : List (Int × Int)) (center : Bool) (out : List Sample)
+    (h : over f s ranges (some center) = .ok out) :
+    ∃ st sp, s.start? = some st ∧ s.stop? = some sp ∧
+      out = (overWindows s st sp center ranges).map fun w => (w.1, f w.2) := by
+  unfold over at h
+  split at h
+  · split at h
+    · rename_i st sp hst hsp
+      split at h
+      · cases h
+      · simp only [Except.ok.injEq] at h
+        refine ⟨st, sp, hst, hsp, ?_⟩
+        rw [← h]
+        unfold overWindows
+        rw [List.map_filterMap]
+        congr 1
+        funext r
+        exact overStep_eq_W f s center r
+    · cases h
+  · cases h
+
+/-- Observation behind the assumption "range lists are ordered in time" (kernel-checked test): the refusal test looks
+    at the FIRST start and the LAST stop only, so a list that is not in time order is refused although its first
+    window lies inside the channel. -/
+theorem over_unordered_witness :
+    over Reduce.sum.apply (.cont ⟨100, 10, [1, 2, 3, 4]⟩) [(110, 130), (0, 50)] (some true) = .error .runtime ∧
+    over Reduce.sum.apply (.cont ⟨100, 10, [1, 2, 3, 4]⟩) [(0, 50), (110, 130)] (some true) = .ok [(115, 5)] := by
+  decide +kernel
+
 /-! ## `downsampled_by` -/
 
 /-- `downsampled_by(k)` of a continuous channel: `⌊n/k⌋` samples; sample `i` is `f` of exactly the
